@@ -431,3 +431,77 @@ Proof.
         (conj X.Bridge.BrTables.perm_rev_sub
               (ex_intro _ _ (conj (proj1 (proj2 (proj2 (proj2 X.Bridge.BrTables.create_types_table_bridge_inhabited)))) eq_refl)))))).
 Qed.
+
+(* ---- P6: tie by regeneration of docgen.CreateDoc (docgen/docgen.go) ----
+   gen/GenDocgen.v holds the package-level `Operators` slice, the sorted keys of the `Builtins` map
+   literal and the body of CreateDoc statement by statement (translator/gen_docgen.go); Ty/DocRules.v
+   interprets it to the key set of c.Variables (a duplicate-free list: a later store under a present
+   key overwrites).  For EVERY types table and every visiting order of the two Go maps its elements
+   are those of the model's doc_names; no side condition.  The comparison is between sets because the
+   model's list repeats a name when a map environment has a key called like an operator / builtin. *)
+Require X.Ty.DocRules X.gen.GenDocgen X.Bridge.BrDocgen X.Bridge.BrDocgenEnv.
+
+Theorem C16_gendocgen_recognised : X.Ty.DocRules.doc_ok X.gen.GenDocgen.doc_src = true.
+Proof. exact X.Bridge.BrDocgen.gendocgen_recognised. Qed.
+Print Assumptions C16_gendocgen_recognised.
+
+Theorem C16_model_doc_operators_is_source : X.gen.GenDocgen.operators = doc_operators.
+Proof. exact X.Bridge.BrDocgen.operators_bridge. Qed.
+Print Assumptions C16_model_doc_operators_is_source.
+
+Theorem C16_model_doc_builtins_is_source :
+  Permutation X.gen.GenDocgen.builtin_keys doc_builtins /\ NoDup X.gen.GenDocgen.builtin_keys.
+Proof. exact (conj X.Bridge.BrDocgen.builtin_keys_bridge X.Bridge.BrDocgen.builtin_keys_nodup). Qed.
+Print Assumptions C16_model_doc_builtins_is_source.
+
+(* the regenerated CreateDoc on an arbitrary table: the exact key list, then its elements *)
+Theorem C16_model_doc_keys_is_source : forall perm permk (tb : table),
+  (forall l e, In e (perm l) <-> In e l) ->
+  (forall l k, In k (permk l) <-> In k l) ->
+  exists keys, X.Ty.DocRules.run_doc X.gen.GenDocgen.doc_src perm permk tb = X.Ty.DocRules.Got keys /\ NoDup keys /\
+               forall k, In k keys <-> In k (doc_vars tb ++ doc_fixed).
+Proof. exact X.Bridge.BrDocgen.create_doc_keys_bridge. Qed.
+Print Assumptions C16_model_doc_keys_is_source.
+
+Theorem C16_model_doc_names_is_source : forall te tperm env names perm permk,
+  (forall l, Permutation (perm l) l) ->
+  (forall l, Permutation (permk l) l) ->
+  doc_names te tperm env = Some names ->
+  exists tb keys, create_types_table te tperm env = Some tb /\
+                  X.Ty.DocRules.run_doc X.gen.GenDocgen.doc_src perm permk tb = X.Ty.DocRules.Got keys /\ NoDup keys /\
+                  forall k, In k keys <-> In k names.
+Proof. exact X.Bridge.BrDocgen.doc_names_bridge_perm. Qed.
+Print Assumptions C16_model_doc_names_is_source.
+
+(* both regenerated functions composed: the table is the interpreted source of conf.CreateTypesTable
+   (inside the fragment of C16_model_table_is_source), the keys the interpreted source of CreateDoc *)
+Theorem C16_model_doc_names_is_source_from_env : forall te tperm env names perm permk fuel,
+  (forall l e, In e (tperm l) -> In e l) ->
+  (forall l e, In e (perm l) <-> In e l) ->
+  (forall l k, In k (permk l) <-> In k l) ->
+  doc_names te tperm env = Some names ->
+  X.Ty.TableRules.env_in_fragment env = true -> X.Ty.TableRules.te_plain te = true ->
+  X.Ty.TableRules.tables_fuel te <= fuel ->
+  exists tb keys,
+    X.Ty.TableRules.gen_create_types_table X.gen.GenTables.funcs te tperm fuel env = X.Ty.TableRules.Got tb /\
+    X.Ty.DocRules.run_doc X.gen.GenDocgen.doc_src perm permk tb = X.Ty.DocRules.Got keys /\
+    NoDup keys /\ forall k, In k keys <-> In k names.
+Proof. exact X.Bridge.BrDocgenEnv.doc_names_bridge_from_env. Qed.
+Print Assumptions C16_model_doc_names_is_source_from_env.
+
+(* non-vacuity: a table with an ambiguous entry, a method and a key colliding with an operator,
+   both maps visited in reverse; and an environment inside the fragment with 20 documented names *)
+Example C16_model_doc_names_is_source_nonvacuous :
+  X.Ty.DocRules.run_doc X.gen.GenDocgen.doc_src perm_rev (@rev string)
+    [("Name", mkTag TString false false); ("Dup", amb_tag); ("Get", mkTag (TFunc [] false [TBool]) true false);
+     ("matches", mkTag TBool false false)]
+  = X.Ty.DocRules.Got ["matches"; "Get"; "Name"; "contains"; "startsWith"; "endsWith";
+         "true"; "one"; "none"; "map"; "len"; "filter"; "false"; "count"; "any"; "all"].
+Proof. exact X.Bridge.BrDocgen.create_doc_run_example. Qed.
+
+Example C16_model_doc_names_is_source_from_env_nonvacuous :
+  X.Ty.TableRules.env_in_fragment X.Bridge.BrTables.TWit.outer_ptr = true /\
+  X.Ty.TableRules.te_plain X.Bridge.BrTables.TWit.te = true /\
+  exists names, doc_names X.Bridge.BrTables.TWit.te perm_rev X.Bridge.BrTables.TWit.outer_ptr = Some names /\
+                List.length names = 20.
+Proof. exact X.Bridge.BrDocgenEnv.doc_names_bridge_from_env_inhabited. Qed.
